@@ -189,12 +189,12 @@ let () =
           pend.cfgs <- []; pend.answers <- []; w := world0; Hashtbl.reset descs;
           bl := { b_crc = false; b_difop_parse = false }
         | ["B"; crc; parse] -> bl := { b_crc = bool_of crc; b_difop_parse = bool_of parse }
-        | ["D"; i; ty; wait; dense; mode; angle; nblk; minb; maxb; st; en; lclock; tsfirst; pktcb; tz; _user; _tail] ->
+        | ["D"; i; ty; wait; dense; mode; angle; nblk; minb; maxb; st; en; lclock; tsfirst; pktcb; tz; user; tail] ->
           let zi s = z_of_int (int_of_string s) in
           let c = { c_wait_for_difop = bool_of wait; c_dense = bool_of dense; c_split_mode = zi mode; c_split_angle = zi angle; c_num_blks = zi nblk;
                     c_min_dist = dy_of_f32bits (int_of_string minb); c_max_dist = dy_of_f32bits (int_of_string maxb);
                     c_start_angle = zi st; c_end_angle = zi en; c_lidar_clock = bool_of lclock; c_ts_first = bool_of tsfirst;
-                    c_pkt_cb = bool_of pktcb; c_tz = zi tz } in
+                    c_pkt_cb = bool_of pktcb; c_tz = zi tz; c_user = zi user; c_tail = zi tail } in
           pend.cfgs <- (int_of_string i, (desc_of_code (int_of_string ty), c)) :: pend.cfgs
         | "A" :: i :: toks ->
           pend.answers <- (int_of_string i, List.map (fun t -> if t = "N" then None else Some (z_of_int (int_of_string t))) toks) :: pend.answers
